@@ -20,6 +20,14 @@ sys.setrecursionlimit(20000)
 ARR_LIMIT = 5000          # arrays up to this many elements are tracked element-wise
 
 
+import re as _re
+_SIMD = _re.compile(r'::(__m128[id]?|u?int\d+x\d+_t|poly\d+x\d+_t|float\d+x\d+_t)$')
+
+
+def is_simd_type(d):
+    return d['k'] == 'adt' and bool(_SIMD.search(d.get('path', '')))
+
+
 class Unsupported(Exception):
     """the interpreter met something it has no model for: the analysis fails closed"""
 
@@ -120,6 +128,18 @@ class Interp:
         import models
         models.install(self)
 
+    def reset(self, budget=None):
+        """forget the results of the previous run (the interpreter object itself is reusable)"""
+        self.steps = 0
+        self.sites = {}
+        self.callstack = []
+        self.entry_state = None
+        self.slice_len = None
+        self.cur_state = None
+        if budget is not None:
+            self.budget = budget
+        return self
+
     def _ptr_bits(self):
         for t in self.types:
             if t.get('psz'):
@@ -167,6 +187,9 @@ class Interp:
         if k == 'closure':
             return Struct(t, [self.top(x, None, depth + 1) for x in d['f']])
         if k == 'adt':
+            if d['adt_kind'] == 'struct' and d.get('size') == 16 and is_simd_type(d):
+                import simd
+                return simd.Vec(t, [topint(8)] * 16, T.sym(name, 128) if (T.ENABLED and name) else None)
             if d['adt_kind'] == 'struct':
                 return Struct(t, [self.top(f['t'], '%s.%s' % (name, f['name']) if name else None, depth + 1)
                                   for f in d['variants'][0]['f']])
@@ -517,10 +540,11 @@ class Interp:
                 # slice in a raw allocation: type is [T] ; represent window
                 loc.win = (pv.start, pv.length)
             if pv.elem is not None:
-                es = self.types[t].get('size')
+                es = pv.eunit if pv.eunit is not None else self.types[t].get('size')
                 if pv.elem.const is None:
-                    raise Unsupported('raw element pointer with abstract index')
-                loc.boff = pv.off + pv.elem.const * es
+                    loc.path = (('ri', pv.elem, es),)
+                else:
+                    loc.boff = pv.off + pv.elem.const * es
             return loc
         if not isinstance(pv, Ptr):
             raise Unsupported('dereference of non-pointer value %r' % (pv,))
@@ -700,6 +724,10 @@ class Interp:
                 return Opaque(None)
             raise Unsupported('field %d of %r' % (step, v))
         k = step[0]
+        if k in ('i', 'i?') and isinstance(v, Struct):
+            nz = [x for x in v.f if not (isinstance(x, Struct) and not x.f)]
+            if len(nz) == 1:
+                return self.step_read(nz[0], step, loc)      # index through a transparent wrapper (hybrid_array::Array)
         if isinstance(v, RawArr):
             if k == 'i':
                 return self.decode(v.aid, v.off + step[1] * v.es, self.types[v.ty]['e'])
@@ -721,11 +749,17 @@ class Interp:
                 lo, hi = idx.lo, min(idx.hi, len(v.e) - 1)
                 if lo > hi:
                     raise Unsupported('abstract index certainly out of range')
+                full = lo == 0 and hi == len(v.e) - 1
+                if full and v.hull is not None:
+                    return v.hull
                 r = v.e[lo]
                 for x in v.e[lo + 1:hi + 1]:
                     if x is not r:
                         r = join(r, x, self.top)
-                return drop_term(r)
+                r = drop_term(r)
+                if full:
+                    v.hull = r
+                return r
             if isinstance(v, ArrSum):
                 return v.elem
             raise Unsupported('abstract index into %r' % (v,))
@@ -835,13 +869,26 @@ class Interp:
                 return UnionVal(v.ty, step, self.upd(base, rest, fn, loc, weak))
             raise Unsupported('field write into %r' % (v,))
         k = step[0]
+        if k in ('i', 'i?') and isinstance(v, Struct):
+            nz = [i for i, x in enumerate(v.f) if not (isinstance(x, Struct) and not x.f)]
+            if len(nz) == 1:
+                f = list(v.f)
+                f[nz[0]] = self.upd(f[nz[0]], path, fn, loc, weak)
+                return Struct(v.ty, f)
         if k == 'i':
             if isinstance(v, Arr):
                 if step[1] >= len(v.e):
                     raise Unsupported('write index out of range')
                 e = list(v.e)
-                e[step[1]] = self.upd(e[step[1]], rest, fn, loc, weak)
-                return Arr(v.ty, e)
+                ne = self.upd(e[step[1]], rest, fn, loc, weak)
+                e[step[1]] = ne
+                na = Arr(v.ty, e)
+                if v.hull is not None:
+                    try:
+                        na.hull = drop_term(join(v.hull, ne, self.top))    # sound over-approximation of the new hull
+                    except JoinFail:
+                        na.hull = None
+                return na
             if isinstance(v, ArrSum):
                 return ArrSum(v.ty, self.upd(v.elem, rest, fn, loc, True), v.n)
             raise Unsupported('index write into %r' % (v,))
@@ -1316,6 +1363,7 @@ class Interp:
             raise Unsupported('unary %s on %r' % (rv[1], a))
         if k == 'cast':
             a = self.operand(frame, st, rv[2])
+            self.cur_state = st
             return cast(self, st, rv[1], a, rv[4], rv[3])
         if k in ('ref', 'raw'):
             loc = self.place(frame, st, rv[2])
@@ -1540,7 +1588,7 @@ class Interp:
             mdl = self.models.get('#' + callee['intrinsic'])
         if mdl is not None:
             return mdl(self, frame, st, args, callee)
-        if name.startswith('core::core_arch::') and not name.startswith('core::core_arch::x86::cpuid'):
+        if name.startswith('core::core_arch::'):
             return self.cpu_intrinsic(frame, st, args, callee, name)
         inst = callee.get('inst')
         if inst is not None:
@@ -1569,9 +1617,10 @@ def drop_term(v):
 # ---------------------------------------------------------------- extra value kinds
 class RawPtr:
     """pointer into a raw constant allocation"""
-    __slots__ = ('aid', 'off', 'view', 'start', 'length', 'elem', 'mut', 'null')
+    __slots__ = ('aid', 'off', 'view', 'start', 'length', 'elem', 'mut', 'null', 'eunit')
 
-    def __init__(self, aid, off, view, start=None, length=None, elem=None):
+    def __init__(self, aid, off, view, start=None, length=None, elem=None, eunit=None):
+        self.eunit = eunit      # bytes per unit of the abstract element index `elem`
         self.aid = aid
         self.off = off
         self.view = view
@@ -1582,7 +1631,7 @@ class RawPtr:
         self.null = False
 
     def copy(self):
-        return RawPtr(self.aid, self.off, self.view, self.start, self.length, self.elem)
+        return RawPtr(self.aid, self.off, self.view, self.start, self.length, self.elem, self.eunit)
 
     def same(self, o):
         return isinstance(o, RawPtr) and self.aid == o.aid and self.off == o.off and self.view == o.view and \
